@@ -11,7 +11,7 @@ var RuleNames = []string{"optional", "nullable", "const", "min", "max", "exclusi
 	"minLength", "maxLength", "regex", "minItems", "maxItems", "type", "enum", "or", "allOf", "additionalProperties"}
 
 // KindExamples are the annotated example nodes (fresh copies).
-var KindNames = []string{"empty object", "object", "empty array", "array", "string", "integer", "float", "boolean", "null", "negative float", "reference"}
+var KindNames = []string{"empty object", "object", "empty array", "array", "string", "integer", "float", "boolean", "null", "negative float", "zero", "reference"}
 
 func KindExample(i int) *model.Node {
 	switch i {
@@ -35,6 +35,8 @@ func KindExample(i int) *model.Node {
 		return model.Null()
 	case 9:
 		return model.Flt("-1.3")
+	case 10:
+		return model.Int("0")
 	}
 	return model.Ref("@i")
 }
@@ -48,6 +50,8 @@ func RuleEnv() []*model.TypeDef {
 		{Name: "@b", Root: model.Bool(true)},
 		{Name: "@n", Root: model.Null()},
 		{Name: "@o", Root: model.Obj(model.P("zz", model.Int("1")))},
+		{Name: "@p", Root: model.Obj(model.P("pp", model.Int("2")))},
+		{Name: "@q", Root: model.Obj(model.P("qq", model.Str("s")), model.P("qr", model.Bool(true).With(model.RBool("optional", true))))},
 	}
 }
 
@@ -74,6 +78,10 @@ func RuleVariants(name string, n *model.Node) []*model.Rule {
 	case "optional", "nullable", "const", "exclusiveMinimum", "exclusiveMaximum":
 		return []*model.Rule{model.RBool(name, true), model.RBool(name, false)}
 	case "min":
+		if n.Lit == "0" {
+			// zero in all its spellings: they are one number
+			return []*model.Rule{model.RNum("min", "0"), model.RNum("min", "-0.0"), model.RNum("min", "0.00"), model.RNum("min", "-0"), model.RNum("min", "0.5")}
+		}
 		if n.Lit == "-1.3" {
 			// negative bounds which differ in the fraction only, in and out of order / range
 			return []*model.Rule{model.RNum("min", "-1.5"), model.RNum("min", "-1.3"), model.RNum("min", "-1.25")}
@@ -83,6 +91,9 @@ func RuleVariants(name string, n *model.Node) []*model.Rule {
 		}
 		return []*model.Rule{model.RNum("min", "1")}
 	case "max":
+		if n.Lit == "0" {
+			return []*model.Rule{model.RNum("max", "-0.0"), model.RNum("max", "0"), model.RNum("max", "-0.00"), model.RNum("max", "0.0"), model.RNum("max", "-0.5")}
+		}
 		if n.Lit == "-1.3" {
 			return []*model.Rule{model.RNum("max", "-1.25"), model.RNum("max", "-1.3"), model.RNum("max", "-1.5")}
 		}
@@ -142,7 +153,8 @@ func RuleVariants(name string, n *model.Node) []*model.Rule {
 			model.ROr(model.OrSet(model.REnum(lit, `"zz"`)), model.OrSet(model.RStr("type", "string")), model.OrSet(model.RStr("type", "null"))),
 		}
 	case "allOf":
-		return []*model.Rule{model.RAllOf("@o")}
+		// one parent, and three of them (each is applied once, in the order written)
+		return []*model.Rule{model.RAllOf("@o"), model.RAllOf("@o", "@p", "@q"), model.RAllOf("@q", "@o", "@p")}
 	case "additionalProperties":
 		return []*model.Rule{model.RStr("additionalProperties", "any"), {Name: "additionalProperties", Bool: false}}
 	case "bogus":
